@@ -73,9 +73,11 @@ def buffer_discipline(ctx, R1, repo, res, rv):
                              sample={"rule": R1, "writer": q, "kind": kind, "line": n.lineno})
             else:
                 # outside the reader: only an empty reset at a connection boundary is tolerated
-                good = isinstance(val, ast.Constant) and val.value == b""
+                boundary = q.split(".")[-1] in ("connect", "disconnect", "_handle_accept")
+                good = isinstance(val, ast.Constant) and val.value == b"" and boundary
                 ctx.instance(R1, f"{q}[write outside the reader]", good,
-                             f"`{short(n)}` in {q} rewrites the receive buffer outside the read loop", loc(n))
+                             f"`{short(n)}` in {q} rewrites the receive buffer outside the read loop (only an empty reset at a connection boundary - connect / disconnect - is "
+                             "harmless): bytes that arrived behind the frame being processed are dropped", loc(n))
     ctx.floor(R1, 4)
     # ---- extension uses the bytes just read, appended at the end
     ext = [n for n in writers.get("AsyncFIXConnection.socket_read_task", []) if classify_write(n, buf, fn) == "extend"]
